@@ -211,7 +211,8 @@ func (e *Env) subRef(owner types.Type, i int, r Term) Term {
 	if !e.declared[name] {
 		e.DeclFun(name, []Sort{SInt}, SInt)
 		e.DeclFun(name+"_inv", []Sort{SInt}, SInt)
-		e.Axiom(fmt.Sprintf("(forall ((r Int)) (! (and (= (%s_inv (%s r)) r) (= (base (%s r)) (base r)) (not (= (%s r) 0))) :pattern ((%s r))))", name, name, name, name, name))
+		e.Axiom(fmt.Sprintf("(forall ((r Int)) (! (and (= (%s_inv (%s r)) r) (= (base (%s r)) (base r)) (not (= (%s r) 0)) (=> (= (rtype r) %d) (= (rtype (%s r)) %d))) :pattern ((%s r))))",
+			name, name, name, name, e.Tag(typeKeyFull(owner)), name, e.Tag(typeKeyFull(st.Field(i).Type())), name))
 	}
 	return App(SInt, name, r)
 }
